@@ -129,7 +129,16 @@ def detect(sid, checks):
     json.dump(out, open(f"{SEEDED}/{sid}/detect.json", "w"), indent=1)
 
 
-MISSED_FIRST = {"C01_s1": "C01 (no threaded / chunked draws) -> strategy draws (R/T) added to C01's covering draws",
+MISSED_FIRST = {"C19_s3": "C19, C13 (value collections were [float, int] lists) -> caller-owned lists / dicts holding temporal columns (tz-aware Series, datetime64, timedelta64)",
+                "C20_s3": "C20 (arrays up to 40 elements) -> every (length, threads) pair up to 160 (thorough 600) rows x 8 threads; invariant BlocksPartition in GBNanops",
+                "C17_s3": "C17 (facade rolling(2) only) -> window 1..3 and min_periods None / 0..window drawn for the facade and the core (this also exposed the genuine defect fixed in c262a57)",
+                "C11_s4": "C11, C13 (a new mask array per call) -> GBObject.Refill: C13's histories keep one mask / values buffer and refill it in place between calls",
+                "C12_s3": "C12, C01 (narrow integers at small values) -> embeddings i8lo / i16lo / i32lo whose abstract 1 is the dtype's lowest value, in C01 / C04 / C08 / C12",
+                "C05_f1": "C05 (chunk-wise route of contiguous keys only: no empty leading chunk; C03's chunk-pipeline traces caught it) -> pre-chunked arrow keys in every layout x slices beyond both ends",
+                "C12_s4": "strengthened after reading the seed's description, before the first run: arrow dictionary-typed ChunkedArray keys with differing per-chunk dictionaries (C02, C12)",
+                "C16_s4": "strengthened after reading the seed's description, before the first run: var / std over pandas nullable-integer, arrow-backed integer, nullable float, polars and arrow value containers with real nulls",
+                "C17_s4": "strengthened after reading the seed's description, before the first run: key given as a Series named like a value column",
+"C01_s1": "C01 (no threaded / chunked draws) -> strategy draws (R/T) added to C01's covering draws",
                 "C01_s3": "C01 (no threaded / chunked draws) -> strategy draws (R/T) added to C01's covering draws",
                 "C07_s2": "C07 (a null that lost its validity bit decodes as NaT) -> polars / arrow outputs: NaT bit pattern with the validity bit set is junk",
                 "C08_s1": "C08 (groups of <= 60 rows) -> groups of 129..300 (thorough: 66000) rows with categorical keys and 8-bit values",
@@ -163,7 +172,8 @@ def meta(sids):
         conf = json.load(open(f"{d}/confirm.json"))
         det = json.load(open(f"{d}/detect.json")) if os.path.exists(f"{d}/detect.json") else {}
         m = {"seed": sid, "property": sid.split("_")[0], "needs_to_manifest": desc.get(sid, ""),
-             "origin": "independent sub-agent given only the property text and a scratch worktree",
+             "origin": ("reverse patch of a fix: commit of /repo (the repaired defect put back)" if "_f" in sid
+                        else "independent sub-agent given only the property text and a scratch worktree"),
              "confirmed_in_scratch_worktree": conf,
              "what_was_run": "seedtool.py confirm (demo on clean and patched scratch worktree at /repo HEAD, relevant test files compared with the clean tree); "
                              "seedtool.py detect (patch applied to /repo, quick checks, reverted)",
